@@ -21,6 +21,8 @@ pub struct CheckSpec {
     pub property: String,
     pub level: &'static str,
     pub profiles: Vec<ProfileSpec>,
+    /// additional profiles of the thorough tier (full sweeps)
+    pub thorough_extra: Vec<ProfileSpec>,
     pub quick_runs: u64,
     pub thorough_runs: u64,
     pub quick_budget_s: u64,
@@ -99,9 +101,14 @@ pub struct BatchResult {
 }
 
 pub fn profile_for(spec: &CheckSpec, i: u64) -> &'static str {
-    let total: u64 = spec.profiles.iter().map(|p| p.weight as u64).sum();
+    profile_for_tier(spec, i, false)
+}
+
+pub fn profile_for_tier(spec: &CheckSpec, i: u64, thorough: bool) -> &'static str {
+    let all: Vec<&ProfileSpec> = if thorough { spec.profiles.iter().chain(spec.thorough_extra.iter()).collect() } else { spec.profiles.iter().collect() };
+    let total: u64 = all.iter().map(|p| p.weight as u64).sum();
     let mut x = mix_all(&[i, 77]) % total.max(1);
-    for p in spec.profiles.iter() {
+    for p in all.iter() {
         if x < p.weight as u64 {
             return p.name;
         }
@@ -195,7 +202,7 @@ pub fn run_batch(spec: &CheckSpec, tier: &str, batch_seed: u64, workers: usize) 
                     if start.elapsed().as_secs() >= budget_s {
                         break;
                     }
-                    let profile = profile_for(spec, i);
+                    let profile = profile_for_tier(spec, i, tier == "thorough");
                     let seed = plan_seed(batch_seed, &spec.property, profile, i);
                     let base_plan = crate::gen::gen_plan(&spec.property, profile, seed);
                     let base_out = run_plan(&base_plan, &opts);
